@@ -961,6 +961,44 @@ func (e *SpecEnv) evalCall(n *ECall) SVal {
 		inside := o.And(o.Eq(r, sl.Reg), o.IdxLe(o.IdxAdd(sl.Off, lo), i), o.IdxLt(i, o.IdxAdd(sl.Off, sl.Cap)))
 		body := o.Implies(o.And(o.Le(o.Int(0), r), o.Lt(r, e.allocPre), o.Not(inside)), o.Eq(o.Select(o.Select(e.st().H, r), i), o.Select(o.Select(e.pre.H, r), i)))
 		return SVal{V: o.Forall([]*Term{r, i}, body), T: typBool}
+	case "decPos", "decDepth", "decAtKey", "decInObj", "decNTok", "decGarbage", "tokKind", "tokText", "decDoc":
+		// ghost state / token stream of a json decoder value
+		v := arg(0)
+		_, d := e.x.decoderOf(e.st(), v.V)
+		switch name {
+		case "decPos":
+			return SVal{V: d.Pos, T: typInt}
+		case "decDepth":
+			return SVal{V: d.Depth, T: typInt}
+		case "decAtKey":
+			return SVal{V: d.AtKey, T: typBool}
+		case "decInObj":
+			return SVal{V: d.InObj, T: typBool}
+		case "decNTok":
+			return SVal{V: e.x.nTok(d.View), T: typInt}
+		case "decGarbage":
+			return SVal{V: e.x.jsonGarbage(d.View), T: typBool}
+		case "decDoc":
+			return SVal{V: d.View, T: typString}
+		case "tokKind":
+			return SVal{V: e.x.tokKind(d.View, e.asInt(arg(1), tyInt)), T: typInt}
+		case "tokText":
+			return SVal{V: e.x.tokText(d.View, e.asInt(arg(1), tyInt)), T: typString}
+		}
+	case "docNTok", "docGarbage", "docKind", "docText":
+		// the token stream of a text (as encoding/json would deliver it)
+		v := arg(0)
+		view := e.x.seqView(e.st(), v.V)
+		switch name {
+		case "docNTok":
+			return SVal{V: e.x.nTok(view), T: typInt}
+		case "docGarbage":
+			return SVal{V: e.x.jsonGarbage(view), T: typBool}
+		case "docKind":
+			return SVal{V: e.x.tokKind(view, e.asInt(arg(1), tyInt)), T: typInt}
+		case "docText":
+			return SVal{V: e.x.tokText(view, e.asInt(arg(1), tyInt)), T: typString}
+		}
 	case "rangePos":
 		// the byte position of the (single) string iterator of the function
 		st := e.st()
